@@ -15,7 +15,7 @@
 
    [fixes] selects, per known defect, the pinned or the repaired behaviour; [current] is what the
    repository does now.  *)
-From Coq Require Import List NArith Bool.
+From Coq Require Import List NArith Bool Permutation.
 Import ListNotations.
 Open Scope N_scope.
 
@@ -345,4 +345,161 @@ Section Lsp.
     | [] => drain fuel s
     | e :: es' => match handle e s with Some s2 => run_burst fuel es' s2 | None => None end
     end.
+
+  (* a fine-grained schedule family: every file-lint job straddles the next request (its first half
+     runs before the handler, its second half after); workspace jobs run eagerly *)
+  Fixpoint drain_ws (fuel : nat) (s : state) {struct fuel} : option state :=
+    match fuel with
+    | O => Some s
+    | S n =>
+        match qw s, qr s with
+        | _ :: _, _ => match dispatch s with Some s' => drain_ws n s' | None => None end
+        | [], _ :: _ => match ws_run s with Some s' => drain_ws n s' | None => None end
+        | [], [] => Some s
+        end
+    end.
+
+  Definition begin_next (s : state) : option state :=
+    match inflight s, qf s with
+    | None, _ :: _ => file_begin s
+    | _, _ => Some s
+    end.
+
+  Definition end_current (s : state) : option state :=
+    match inflight s with Some _ => file_end s | None => Some s end.
+
+  Fixpoint run_racy (fuel : nat) (es : list event) (s : state) {struct es} : option state :=
+    match es with
+    | [] => drain fuel s
+    | e :: es' =>
+        match handle e s with
+        | None => None
+        | Some s1 =>
+            match end_current s1 with
+            | None => None
+            | Some s2 =>
+                match begin_next s2 with
+                | None => None
+                | Some s3 => match drain_ws fuel s3 with Some s4 => run_racy fuel es' s4 | None => None end
+                end
+            end
+        end
+    end.
 End Lsp.
+
+(* ------------------------------------------------------------------ specification-level predicates *)
+(* What the theorems assume of the linter oracles.  Each clause is checked by the harness on every
+   value it tabulates from the real linter. *)
+Record linter_ok (parses : content -> bool) (perr : uri -> content -> list diag)
+  (fdiags : cfg -> uri -> content -> list diag) (areport : cfg -> fmap (cfg * content) -> uri -> list diag)
+  (nonagg agg : cfg -> list rule) : Prop := {
+  (* violations found in one module are of enabled non-aggregate rules *)
+  lo_fcodes : forall k u c d, In d (fdiags k u c) -> mem (code d) (nonagg k) = true;
+  (* aggregate violations are of enabled aggregate rules *)
+  lo_acodes : forall k m u d, In d (areport k m u) -> mem (code d) (agg k) = true;
+  (* the two cached rule lists are disjoint (loadEnabledRulesFromConfig) *)
+  lo_disj : forall k r, mem r (nonagg k) = true -> mem r (agg k) = false;
+  (* the aggregate report is a function of the aggregate data, not of how the cache map was built *)
+  lo_aext : forall k m1 m2 u, (forall v, m1 v = m2 v) -> areport k m1 u = areport k m2 u;
+  (* aggregate violations are located in files that contributed aggregate data *)
+  lo_adom : forall k m u, m u = None -> areport k m u = [];
+  (* contents that do not parse have at least one parse-error diagnostic (updateParse) *)
+  lo_perr : forall u c, parses c = false -> perr u c <> [] }.
+
+(* histories/schedules of the partial theorem: job-atomic steps, URIs of the universe, and no event
+   that introduces an unparseable document *)
+Definition parse_ok_label (U : list uri) (parses : content -> bool) (l : label) : Prop :=
+  match l with
+  | LEvent (ESet u c) => parses c = true /\ In u U
+  | LEvent (ERename _ v) => In v U
+  | LFileBegin | LFileEnd => False
+  | _ => True
+  end.
+
+Definition parse_ok_init (U : list uri) (parses : content -> bool) (f : fmap content) : Prop :=
+  forall u c, f u = Some c -> parses c = true /\ In u U.
+
+(* histories/schedules of the full statement: any contents, job-atomic or not as stated *)
+Definition in_universe_label (U : list uri) (l : label) : Prop :=
+  match l with
+  | LEvent (ESet u _) => In u U
+  | LEvent (ERename _ v) => In v U
+  | _ => True
+  end.
+
+Definition in_universe_init (U : list uri) (f : fmap content) : Prop :=
+  forall u c, f u = Some c -> In u U.
+
+(* the statement of C15 at the job-atomic level, for the behaviour selected by [fx] *)
+Definition converges_statement (fx : fixes) (sched_ok : label -> Prop) : Prop :=
+  forall (U : list uri) parses perr fdiags areport nonagg agg,
+    linter_ok parses perr fdiags areport nonagg agg ->
+    forall (f : fmap content) (k : cfg) (ls : list label) (s : state),
+      in_universe_init U f ->
+      Forall (in_universe_label U) ls -> Forall sched_ok ls ->
+      run U parses perr fdiags areport nonagg agg fx ls (init_state parses f k) = Some s ->
+      quiescent s ->
+      forall u, Permutation (pub s u) (fresh U parses perr fdiags areport (contents s) (conf s) u).
+
+(* ------------------------------------------------------------------ a concrete linter for the witnesses *)
+(* URIs 0 (imports the package defined in 1), 1, 2.  Contents: 0 = module importing package b,
+   1 = package b, 2 = unparseable, 3 = package b with a violation of rule 1.
+   Configs: 0 = default, 1 = rule 1 (non-aggregate) disabled, 2 = rule 2 (aggregate) disabled.
+   Aggregate rule 2 = "unresolved import": reported for URI 0 when URI 1 contributes no usable data. *)
+Definition wU : list uri := [0; 1; 2].
+Definition w_parses (c : content) : bool := negb (N.eqb c 2).
+Definition w_perr (u : uri) (c : content) : list diag := [(9, 50 + c)].
+Definition w_nonagg (k : cfg) : list rule := if N.eqb k 1 then [] else [1].
+Definition w_agg (k : cfg) : list rule := if N.eqb k 2 then [] else [2].
+Definition w_fd (k : cfg) (u : uri) (c : content) : list diag :=
+  if N.eqb c 3 && negb (N.eqb k 1) then [(1, 30)] else [].
+Definition w_has (m : fmap (cfg * content)) (v : uri) : bool :=
+  match m v with Some (kc, _) => negb (N.eqb kc 2) | None => false end.
+Definition w_ar (k : cfg) (m : fmap (cfg * content)) (u : uri) : list diag :=
+  if N.eqb k 2 then [] else if N.eqb u 0 && w_has m 0 && negb (w_has m 1) then [(2, 100)] else [].
+
+Definition w_init (init : list (uri * content)) : fmap content :=
+  fun u => match find (fun p => N.eqb (fst p) u) init with Some p => Some (snd p) | None => None end.
+
+Definition w_run (fx : fixes) (init : list (uri * content)) (ls : list label) : option state :=
+  run wU w_parses w_perr w_fd w_ar w_nonagg w_agg fx ls (init_state w_parses (w_init init) 0).
+
+Definition w_fresh (s : state) (u : uri) : list diag := fresh wU w_parses w_perr w_fd w_ar (contents s) (conf s) u.
+
+(* a run that ends quiescent with a number of published diagnostics for [u] that differs from the reference *)
+Definition diverges (fx : fixes) (init : list (uri * content)) (ls : list label) (u : uri) : bool :=
+  match w_run fx init ls with
+  | Some s => quiescentb s && negb (Nat.eqb (length (pub s u)) (length (w_fresh s u)))
+  | None => false
+  end.
+
+Definition startup : list label := [LDispatch; LDispatch; LRun; LRun].
+Definition settle : list label := [LFile; LDispatch; LRun].
+Definition any_label (_ : label) : Prop := True.
+Definition atomic_label (l : label) : Prop := atomic l = true.
+
+(* witnesses: (initial workspace, schedule, URI whose diagnostics are wrong) *)
+Definition wit_parse_failure := ([(0, 0); (1, 1); (2, 1)], startup ++ LEvent (ESet 1 2) :: settle, 0).
+Definition wit_single_module := ([(0, 0)], startup ++ LEvent (ESet 0 0) :: settle, 0).
+Definition wit_disabled_rule :=
+  ([(0, 0); (1, 3)],
+   startup ++ LEvent (ESet 1 2) :: settle ++ LEvent (EConfig 1) :: [LDispatch; LRun] ++ LEvent (ESet 1 3) :: settle, 1).
+Definition wit_no_modules := ([(1, 2)], startup, 1).
+Definition wit_delete := ([(0, 0); (1, 1); (2, 1)], startup ++ [LEvent (EDelete 1)], 0).
+Definition wit_config :=
+  ([(0, 0); (1, 1)],
+   startup ++ LEvent (EConfig 2) :: [LDispatch; LRun] ++ LEvent (ESet 1 1) :: settle
+   ++ LEvent (EConfig 0) :: [LDispatch; LRun] ++ LEvent (ESet 0 0) :: settle, 0).
+Definition wit_race :=
+  ([(0, 0); (1, 1); (2, 1)],
+   startup ++ [LEvent (ESet 1 1); LFileBegin; LEvent (EDelete 1); LFileEnd; LDispatch; LDispatch; LRun; LRun], 0).
+
+Definition wdiv (fx : fixes) (w : list (uri * content) * list label * uri) : bool :=
+  diverges fx (fst (fst w)) (snd (fst w)) (snd w).
+
+(* non-vacuity of the partial theorem: a history with edit, rename, config change and delete that meets
+   its hypotheses, ends quiescent with two modules and non-trivial diagnostics *)
+Definition ex_history : list label :=
+  startup ++ LEvent (ESet 1 3) :: settle ++ LEvent (ERename 1 2) :: settle ++ LEvent (EConfig 2) :: [LDispatch; LRun]
+  ++ LEvent (ESet 1 1) :: settle ++ LEvent (EDelete 2) :: [LDispatch; LRun].
+
